@@ -217,7 +217,8 @@ def _canon(v, index, depth=0):
     return "obj:" + type(v).__name__
 
 
-SKIP_PART_ATTRS = {"_points", "_quarter_map", "_beat_map", "_inv_beat_map", "_quarter_map_cache"}
+# memoisation caches of derived values are not observable state of the argument
+SKIP_PART_ATTRS = {"_points", "_quarter_map", "_number_of_staves"}
 
 
 def fingerprint_part(part, with_ids=False):
